@@ -244,8 +244,8 @@ def random_recipe(rng, conv: str, tier: str):
 
 def extended_recipe(rng, conv: str):
     """-> (recipe, names | None, ns | None, label); model against code only"""
-    label = rng.choice(['bounds-coord', 'tvar', 'group-differs', 'two-depth-dims', 'single-level',
-                        'no-time', 'unknown', 'no-ns', 'subset'])
+    label = rng.choice(['bounds-coord', 'tvar', 'tvar', 'group-differs', 'group-differs', 'two-depth-dims',
+                        'single-level', 'no-time', 'unknown', 'no-ns', 'subset'])
     r = D.random_dataset(rng, conv, n_axes=rng.choice([1, 2]), levels=(2, 3),
                          positions='random', kinds_per_axis=rng.choice([1, 2]),
                          bounds='coord' if label == 'bounds-coord' else None,
@@ -254,11 +254,18 @@ def extended_recipe(rng, conv: str):
     base = G.build(r['base'])
     names = ns = None
     dvars = [v for v in spec['vars'] if v.get('axis') is not None and v.get('kind') is not None]
-    if label == 'tvar' and spec.get('time') and spec['time']['n'] > 1:
+    if label == 'tvar':
+        if not spec.get('time') or spec['time']['n'] < 2:
+            spec['time'] = D.time_spec(rng, conv, 2)
+            for vr in dvars:
+                vr['time'] = True
+                vr['order'] = None
         for vr in dvars:
             if vr.get('time'):
-                ncol = len(vr['wet'])
-                vr['tvar'] = [[rng.randrange(spec['time']['n']), rng.randrange(ncol), 0] for _ in range(3)]
+                # blank the floor layer itself at one time step: the floor differs between time steps
+                cols = [c for c, w in enumerate(vr['wet']) if w >= 1]
+                vr['tvar'] = [[rng.randrange(spec['time']['n']), c, vr['wet'][c] - 1]
+                              for c in rng.sample(cols, min(len(cols), 3))]
     elif label == 'group-differs' and dvars:
         vr = rng.choice(dvars)
         ax = next(a for a in spec['axes'] if a['dim'] == vr['axis'])
@@ -398,7 +405,7 @@ def run(ctx) -> None:
         one(db, names, [db.time_name], via, 'random', True, ('rnd', conv, cfg, i))
 
     # (c) extended stream: model against code only
-    for i in range(ctx.budget(30, 300)):
+    for i in range(ctx.budget(50, 400)):
         conv = D.CONVS[i % 5]
         recipe, names, ns, label = extended_recipe(rng, conv)
         try:
